@@ -3,7 +3,7 @@
    ("the frames a node leaves on the backtracking stack denote the tail of its result list").
    All states are root-slot families (Proofs/VMUOps2.v: [mkr], [bkr], [rsteps]). *)
 From Verif Require Import Base.Prelude Model.Tree Model.Spec Model.VM Model.Writer Gen.RunnerGen
-  Proofs.SpecProofs Proofs.VMU Proofs.VMUOps Proofs.VMUOps2.
+  Proofs.SpecProofs Proofs.VMU Proofs.VMUOps Proofs.VMUOps2 Proofs.VMUOps6.
 From Coq Require Import Relations ZifyBool.
 
 Section CB.
@@ -50,20 +50,6 @@ Lemma track_ok_cons a w T : code_at p (Z.abs a) = Some w -> track_ok (a :: T).
 Proof. intros H. exists a, T. split; [reflexivity|]. exists w. exact H. Qed.
 Lemma track_ok_app T' T : track_ok T' -> track_ok (T' ++ T).
 Proof. intros (np & T1 & -> & Hw). exists np, (T1 ++ T). split; [reflexivity|exact Hw]. Qed.
-
-(* undoing the captures recorded on a piece of the crawl stack *)
-Fixpoint unwind (C : list Z) (M : list (list Z)) : option (list (list Z)) :=
-  match C with
-  | [] => Some M
-  | c :: C' => match remove_match c M with Some M1 => unwind C' M1 | None => None end
-  end.
-
-Lemma unwind_app A B M M1 M2 : unwind A M = Some M1 -> unwind B M1 = Some M2 -> unwind (A ++ B) M = Some M2.
-Proof.
-  revert M. induction A as [|c A IH]; cbn [unwind app]; intros M H1 H2.
-  - injection H1 as <-. exact H2.
-  - destruct (remove_match c M) as [M'|]; [|discriminate]. apply IH; assumption.
-Qed.
 
 (* [leadsg b T Ss Sf C M0 start res]: running from [start], the results [res] are delivered one
    after the other at code position [b] (forward mode, grouping stack [Ss], some frames T' on top of
